@@ -44,6 +44,29 @@ def written_files(run, tier):
     return out
 
 
+def written_2d(run, tier):
+    import segyio
+    d = env.subdir('c02w2')
+    combos = [((9, 70), 8, (1, 4, 1024)), ((21, 300), 8, (1, 16, 256))]
+    if tier == 'thorough':
+        combos += [((19, 40), 16, (1, 16, 128)), ((5, 2100), 4, (1, 4, 2048)), ((40, 70), 32, (1, 32, 32)), ((9, 9), 32, (1, 4, 256)),
+                   ((70, 9), 16, (1, 64, 32)), ((6, 600), 2, (1, 16, 1024))]
+    out = []
+    for k, (shape, rate, bs) in enumerate(combos):
+        sgy, p = os.path.join(d, f's{k}.sgy'), os.path.join(d, f'q{k}.sgz')
+        data = inputs.cube(shape, run.seed + 50 + k)
+        hdrs = [{segyio.TraceField.CDP_X: 100 + t, segyio.TraceField.CDP_Y: 7 * t, segyio.TraceField.CDP: t + 1,
+                 segyio.TraceField.offset: 3} for t in range(shape[0])]
+        inputs.write_segy_traces(sgy, data, np.arange(shape[1]) * 4.0, hdrs)
+        try:
+            writers.segy_to_sgz(sgy, p, writers.rate_arg(rate), bs)
+        except BaseException as e:
+            run.notes.append(f'2d writer refused {shape} {rate} {bs}: {type(e).__name__}: {e}')
+            continue
+        out.append(session.FileCase(p, label=f'segy2d{shape}r{rate}b{bs}'))
+    return out
+
+
 def extra_paths(run, fc, rng, budget):
     """segyio-style accessors, subvolume[...] with steps, tools.cube, xarray backend: (op label, ideal op, args, thunk)"""
     import seismic_zfp
@@ -206,7 +229,7 @@ def run(run):
         keep = ('padding_5x7', 'padding_8x8', 'small-2d', 'small-dec_8bit', 'small-irregular', 'small_025bit', 'small_2bit-64x64',
                 'small_8bit-8x8', 'small_8bit.', 'small_hole', 'small_v0.0.1', 'small_4bit')
         fixtures = [f for f in fixtures if any(k in f for k in keep)]
-    cases = session.load_files([session.FileCase(p) for p in fixtures] + written_files(run, run.tier), run)
+    cases = session.load_files([session.FileCase(p) for p in fixtures] + written_files(run, run.tier) + written_2d(run, run.tier), run)
     for fc in cases:
         # the reference volume of a file written here is also the ZFP image of nothing we know: only coherence is judged
         run.ok('C02.refdecode')
@@ -220,7 +243,7 @@ def replay(run, rep):
     if paths:
         cases = session.load_files([session.FileCase(paths[0])], run)
     else:
-        cases = [c for c in session.load_files(written_files(run, 'thorough'), run) if c.label == case['file']]
+        cases = [c for c in session.load_files(written_files(run, 'thorough') + written_2d(run, 'thorough'), run) if c.label == case['file']]
     fc = cases[0]
     op, a = case['op'], case['args']
     from seismic_zfp.read import SgzReader
